@@ -14,6 +14,8 @@ VARIABLES tid, l, verdict
 Check(e) ==
   IF e.ev = "Pair" THEN
      (IF e.inhang \/ e.hang THEN "run_hangs"
+      \* the in-process run is the reference: it ends with an exit code, never with an exception
+      ELSE IF e.inraised THEN "in_process_reference_run_raised_an_exception"
       ELSE IF e.extoutcome # e.inoutcome THEN "external_exit_code_differs_from_in_process"
       ELSE IF e.sigExt # e.sigIn THEN "external_evaluations_differ_from_in_process"
       ELSE IF e.childalive THEN "optimizer_process_left_running" ELSE "ok")
